@@ -51,8 +51,8 @@ EXTENDS MDP, Json, IOUtils
 
 Batch == JsonDeserialize(IOEnv.BATCH_FILE)
 
-VARIABLES iid, V, upd, solved, ord, stack, pc, inexact, hist, ntr, mism, orc, term
-vars == <<iid, V, upd, solved, ord, stack, pc, inexact, hist, ntr, mism, orc, term>>
+VARIABLES iid, V, upd, solved, seen, ord, stack, pc, inexact, hist, ntr, mism, orc, term
+vars == <<iid, V, upd, solved, seen, ord, stack, pc, inexact, hist, ntr, mism, orc, term>>
 
 M == Batch[iid]
 ModeOf(m) == m.mode
@@ -150,12 +150,15 @@ Oracle(m) ==
 NoOracle == [vstar |-> <<>>, lo |-> <<>>, vinit |-> <<0, 1>>, proper |-> TRUE, adm |-> "ok", mono |-> TRUE]
 
 \* ------------------------------------------------------------------ the returned policy and its exact evaluation
-\* support of the returned policy at the non-absorbing states: deterministic greedy where a value is
-\* stored, uniform over all maximisers of the same look-ahead (final values, heuristic where nothing is
-\* stored, absorbing successors worth 0) elsewhere
-RetSup(m, v, u, o) ==
+\* support of the returned policy at the non-absorbing states: at every state the planner has fixed an
+\* action order for (sn = keys of res.action_orders: the updated states and every state _check_solved
+\* looked at) it is the planner's own greedy action - the first maximiser in that order, the one the labels
+\* certify; only at states the run never saw it is uniform over all maximisers of the same look-ahead
+\* (final values, heuristic where nothing is stored, absorbing successors worth 0).
+\* (m.repair = 0 gives the behaviour before that repair: deterministic only where a value is stored.)
+RetSup(m, v, u, sn, o) ==
   [s \in NonAbs(m) |->
-     IF s \in u THEN {Greedy(m, v, o, s)}
+     IF s \in u \/ (m.repair = 1 /\ s \in sn) THEN {Greedy(m, v, o, s)}
      ELSE LET mx == MaxSet({QNum(m, v, s, a) : a \in Avail(m, s)}) IN {a \in Avail(m, s) : QNum(m, v, s, a) = mx}]
 QDof(m, sup) == IF \A s \in NonAbs(m) : Cardinality(sup[s]) = 1 THEN 1
                 ELSE IF \A s \in NonAbs(m) : Cardinality(sup[s]) \in {1, 2} THEN 2 ELSE 6
@@ -212,7 +215,7 @@ Init ==
   /\ iid \in 1..Len(Batch)
   /\ ord \in {o \in Orders(Batch[iid]) : \A s \in St(Batch[iid]) : o[s] \in PermSeqs(Batch[iid].aord[s])}
   /\ V = [s \in St(Batch[iid]) |-> IF IsAbs(Batch[iid], s) THEN 0 ELSE Batch[iid].h[s]]
-  /\ upd = {} /\ solved = {} /\ stack = <<>> /\ inexact = FALSE
+  /\ upd = {} /\ solved = {} /\ seen = {} /\ stack = <<>> /\ inexact = FALSE
   /\ pc = IF ModeOf(Batch[iid]) \in {"judge", "judge2"} THEN ModeOf(Batch[iid]) ELSE "idle"
   /\ hist = [ch |-> <<>>, fail |-> 0, succ |-> 0]
   /\ ntr = 0 /\ mism = 0
@@ -234,7 +237,7 @@ StartTrial ==
             /\ hist' = [hist EXCEPT !.ch = Append(@, Choice(0, 0, 0, s0))]
             /\ ntr' = IF Scripted(M) THEN ntr + 1 ELSE ntr
             /\ mism' = Mark(M, ntr + 1, V, upd, solved)
-  /\ UNCHANGED <<iid, V, upd, solved, ord, inexact, orc, term>>
+  /\ UNCHANGED <<iid, V, upd, solved, seen, ord, inexact, orc, term>>
 
 \* one pass of the while loop of lrtdp_trial (the top of the stack is not solved)
 TrialStep ==
@@ -242,7 +245,7 @@ TrialStep ==
   /\ LET s  == stack[Len(stack)]
          v1 == Upd(M, V, s)
          a  == Greedy(M, v1, ord, s)
-     IN /\ V' = v1 /\ upd' = upd \cup {s}
+     IN /\ V' = v1 /\ upd' = upd \cup {s} /\ seen' = seen \cup {s}
         /\ inexact' = (inexact \/ ~AllExact(M, V, s) \/ ~AllExact(M, v1, s))
         /\ IF Scripted(M) /\ (~HasNext(M) \/ NextCh(M).k # 1 \/ NextCh(M).s # s \/ NextCh(M).a # a
                               \/ NextCh(M).t \notin PosSucc(M, s, a))
@@ -260,7 +263,7 @@ EndTrial ==
   /\ pc = "eot" /\ pc' = "check"
   /\ ntr' = IF Scripted(M) THEN ntr + 1 ELSE ntr
   /\ mism' = Mark(M, ntr + 1, V, upd, solved)
-  /\ UNCHANGED <<iid, V, upd, solved, ord, stack, inexact, hist, orc, term>>
+  /\ UNCHANGED <<iid, V, upd, solved, seen, ord, stack, inexact, hist, orc, term>>
 
 \* s = visited.pop(); _check_solved(s); continue popping while it succeeds
 CheckStep ==
@@ -270,7 +273,8 @@ CheckStep ==
          r      == CS(M, V, ord, solved, IF s \in solved THEN <<>> ELSE <<s>>, <<>>, TRUE)
          closed == r[1]
          flag   == r[2]
-     IN /\ IF flag
+     IN /\ seen' = seen \cup Range(closed)         \* policy() is called on every state that enters `closed`
+        /\ IF flag
            THEN /\ solved' = solved \cup Range(closed) /\ V' = V /\ upd' = upd
                 /\ inexact' = (inexact \/ ~CSExact(M, V, closed))
                 /\ hist' = IF closed # <<>> THEN [hist EXCEPT !.succ = 1] ELSE hist
@@ -284,8 +288,8 @@ CheckStep ==
 \* the end-of-run clauses (computed once, when lrtdp() returns)
 \* "label-consistent" policy: the greedy action of the final values at every state (what the labelling
 \* procedure certified); differs from the returned policy only at states without a stored value
-TermBundle(m, v, u, o, oc) ==
-  LET sup  == TLCEval(RetSup(m, v, u, o))
+TermBundle(m, v, u, sn, o, oc) ==
+  LET sup  == TLCEval(RetSup(m, v, u, sn, o))
       sup2 == TLCEval([s \in NonAbs(m) |-> {Greedy(m, v, o, s)}])
       ev   == Evaluate(m, sup)
       ev2  == IF sup2 = sup THEN ev ELSE Evaluate(m, sup2)
@@ -305,10 +309,10 @@ Finish ==
   /\ pc' = IF Scripted(M) /\ HasNext(M) THEN "diverged" ELSE "done"
   /\ ntr' = IF Scripted(M) THEN ntr + 1 ELSE ntr
   /\ mism' = Mark(M, ntr + 1, V, upd, solved)
-  /\ term' = IF inexact THEN <<>> ELSE TermBundle(M, V, upd, ord, orc)
-  /\ UNCHANGED <<iid, V, upd, solved, ord, stack, inexact, hist, orc>>
+  /\ term' = IF inexact THEN <<>> ELSE TermBundle(M, V, upd, seen, ord, orc)
+  /\ UNCHANGED <<iid, V, upd, solved, seen, ord, stack, inexact, hist, orc>>
 
-JudgeStep == pc \in {"judge", "judge2"} /\ pc' = (IF pc = "judge" THEN "judged" ELSE "judged2") /\ UNCHANGED <<iid, V, upd, solved, ord, stack, inexact, hist, ntr, mism, orc, term>>
+JudgeStep == pc \in {"judge", "judge2"} /\ pc' = (IF pc = "judge" THEN "judged" ELSE "judged2") /\ UNCHANGED <<iid, V, upd, solved, seen, ord, stack, inexact, hist, ntr, mism, orc, term>>
 
 Next == StartTrial \/ TrialStep \/ EndTrial \/ CheckStep \/ Finish \/ JudgeStep
 Spec == Init /\ [][Next]_vars
@@ -316,7 +320,7 @@ Spec == Init /\ [][Next]_vars
 \* behaviours that left the exact dyadic grid are cut (counted by the driver through the real runs)
 Exactness == ~inexact
 \* the history is not part of the explored state in mc mode; in trace mode the position is
-View == <<iid, V, upd, solved, ord, stack, pc, inexact, ntr, mism, IF ModeOf(M) = "mc" THEN 0 ELSE Len(hist.ch)>>
+View == <<iid, V, upd, solved, seen, ord, stack, pc, inexact, ntr, mism, IF ModeOf(M) = "mc" THEN 0 ELSE Len(hist.ch)>>
 
 \* ------------------------------------------------------------------ (P) properties
 Done == pc = "done" /\ term # <<>>
@@ -368,7 +372,7 @@ InstancesOK ==
 \* mc / trace: one record per terminal state of the machine (the history is replayed into msdm)
 TermRecord ==
   [iid |-> iid, tag |-> M.tag, kind |-> ModeOf(M), pc |-> pc,
-   v |-> V, upd |-> upd, solved |-> solved, ord |-> ord, ch |-> hist.ch, fail |-> hist.fail, succ |-> hist.succ,
+   v |-> V, upd |-> upd, solved |-> solved, seen |-> seen, ord |-> ord, ch |-> hist.ch, fail |-> hist.fail, succ |-> hist.succ,
    ntr |-> ntr, mism |-> mism, term |-> term,
    vstar |-> orc.vstar, vinit |-> orc.vinit, adm |-> orc.adm, mono |-> orc.mono, proper |-> orc.proper]
 DivergedRecord ==
